@@ -1,5 +1,10 @@
 (* C09 — postponed resolution reaches the right fixpoint and terminates. *)
-From TxV Require Import Core.Base Model.Resolve Proofs.ResolveProofs.
+From TxV Require Import Core.Base Gen.SrcResolve Model.Resolve Proofs.ResolveProofs.
+
+(* [load] is the resolver model instantiated with the facts read from textx/model.py on every
+   run (Gen/SrcResolve.v, tools/translate/resolve_tr.py): re-queueing of Postponed references,
+   which resolutions count as progress, the loop condition `unresolved > 0 and resolved > 0`,
+   the error condition and the references it names. *)
 
 (* Termination for every provider: the round loop, started with fuel = number of
    references + 1, never runs out of fuel (each continuing round resolves at least one). *)
@@ -37,6 +42,69 @@ Theorem C09_order_independent : forall m1 m2,
 Proof. exact order_independent. Qed.
 Print Assumptions C09_order_independent.
 
+(* ---------------------------------------------------------------- any monotone provider
+   The provider is ANY readiness predicate over the set of resolved references that is
+   monotone (more references resolved never makes a reference un-ready): dependency tables,
+   "any one of", thresholds, ...  [mreach all ready i]: i is ready given some set of references
+   each of which can (inductively) be resolved = "some order of resolving lets i resolve". *)
+Theorem C09_monotone_success_iff : forall ready, monotone ready -> forall models, NoDup (map xid (concat models)) ->
+  ((exists st, load (mono_ans ready) models = Ok st) <->
+   forall x, In x (concat models) -> mreach (concat models) ready (xid x)).
+Proof. exact monotone_success_iff. Qed.
+Print Assumptions C09_monotone_success_iff.
+
+Theorem C09_monotone_result : forall ready, monotone ready -> forall models st, NoDup (map xid (concat models)) ->
+  load (mono_ans ready) models = Ok st ->
+  forall x, In x (concat models) -> mreach (concat models) ready (xid x) /\ tgt st (xid x) = Some (xtgt x).
+Proof. exact monotone_result. Qed.
+Print Assumptions C09_monotone_result.
+
+(* otherwise the load fails with the Unresolvable error (never Unknown object, never out of
+   fuel) naming exactly the references that no order can resolve; there is at least one *)
+Theorem C09_monotone_error_names : forall ready, monotone ready -> forall models lf st, NoDup (map xid (concat models)) ->
+  load (mono_ans ready) models = Unresolvable lf st ->
+  concat lf <> [] /\
+  forall x, In x (concat lf) <-> (In x (concat models) /\ ~ mreach (concat models) ready (xid x)).
+Proof. exact monotone_error_names. Qed.
+Print Assumptions C09_monotone_error_names.
+
+Theorem C09_monotone_never_unknown : forall ready, monotone ready -> forall models, NoDup (map xid (concat models)) ->
+  load (mono_ans ready) models <> UnknownObject.
+Proof. exact monotone_never_unknown. Qed.
+Print Assumptions C09_monotone_never_unknown.
+
+Theorem C09_monotone_order_independent : forall ready, monotone ready -> forall m1 m2,
+  NoDup (map xid (concat m1)) -> NoDup (map xid (concat m2)) ->
+  (forall x, In x (concat m1) <-> In x (concat m2)) ->
+  ((exists st, load (mono_ans ready) m1 = Ok st) <-> (exists st, load (mono_ans ready) m2 = Ok st)) /\
+  (forall st1 st2, load (mono_ans ready) m1 = Ok st1 -> load (mono_ans ready) m2 = Ok st2 ->
+     forall x, In x (concat m1) -> tgt st1 (xid x) = tgt st2 (xid x)).
+Proof. exact monotone_order_independent. Qed.
+Print Assumptions C09_monotone_order_independent.
+
+(* the table form of "can resolve" is the instance of the general one *)
+Theorem C09_table_is_monotone_instance : monotone dep_ready /\ dep_ans = mono_ans dep_ready /\
+  forall all i, reach all i <-> mreach all dep_ready i.
+Proof. exact table_is_monotone_instance. Qed.
+Print Assumptions C09_table_is_monotone_instance.
+
+(* non-vacuity of the monotone class: "waits for ANY ONE of" is monotone and not a table *)
+Example C09_any_ready_monotone : monotone any_ready.
+Proof. exact any_ready_monotone. Qed.
+Print Assumptions C09_any_ready_monotone.
+
+(* ---------------------------------------------------------------- providers that ask the resolver
+   Real providers learn whether an awaited reference has resolved from
+   needs_to_be_resolved / ReferenceResolver.has_unresolved_crossrefs, a snapshot that is refreshed
+   at the end of each model's step ([qload], [sprovider] in Model/Resolve.v).  Termination holds
+   for every such provider.  (The least-fixpoint verdict for this class is validated by the
+   correspondence and the property oracle on chains/digraphs over several files; it is not
+   proved: C09_snapshot_success_iff would read
+     forall ready, monotone ready -> ... (exists st, qload (fun settled => mono over settled) models = Ok st) <-> all mreach.) *)
+Theorem C09_terminates_snapshot : forall (ans : sprovider) models, qload ans models <> OutOfFuel.
+Proof. exact qload_terminates. Qed.
+Print Assumptions C09_terminates_snapshot.
+
 (* non-vacuity: a reverse chain over two models resolves in three rounds; a cycle does not *)
 Definition mkd i d n := {| xid := i; xslot := i; xmany := false; xpos := i; xtgt := 10 + i; xdeps := d; xnever := n |}.
 Example C09_nonvacuous_ok :
@@ -51,3 +119,20 @@ Example C09_nonvacuous_fail :
   | _ => False end.
 Proof. vm_compute. reflexivity. Qed.
 Print Assumptions C09_nonvacuous_fail.
+Example C09_nonvacuous_monotone :
+  match load (mono_ans any_ready) [[mkd 0 [1; 2] false; mkd 1 [] false]; [mkd 2 [2] false]] with
+  | Unresolvable lf st => map xid (concat lf) = [2] /\ tgt st 0 = Some 10 /\ rev (log st) = [0;1;2; 0;2; 2]
+  | _ => False end.
+Proof. vm_compute. repeat split; reflexivity. Qed.
+Print Assumptions C09_nonvacuous_monotone.
+(* the snapshot view: a chain r0 -> r1 -> r2 with r0 in the first model needs one round per link,
+   also inside one model (r1 sees r2 settled only after the step in which r2 resolved has ended) *)
+Example C09_nonvacuous_snapshot :
+  match qload (snap_ans (fun _ => 0)) [[mkd 0 [1] false]; [mkd 1 [2] false; mkd 2 [] false]] with
+  | Ok st => tgt st 0 = Some 10 /\ rev (log st) = [0;1;2; 0;1; 0]
+  | _ => False end /\
+  match qload (snap_ans (fun _ => 0)) [[mkd 2 [] false; mkd 1 [2] false; mkd 0 [1] false]] with
+  | Ok st => rev (log st) = [2;1;0; 1;0; 0]
+  | _ => False end.
+Proof. vm_compute. repeat split; reflexivity. Qed.
+Print Assumptions C09_nonvacuous_snapshot.
